@@ -18,7 +18,7 @@ type CodeWriter struct {
 	// lastByte is the last byte written to the buffer (0 if nothing was written yet)
 	lastByte byte
 	// semiOmitted is true while the last thing a printer did was to leave out an
-	// optional semicolon (nothing has been written since)
+	// optional semicolon (no token has been written since)
 	semiOmitted bool
 	// deferred is the mapping requested for the token about to be written
 	deferred deferredMapping
@@ -41,17 +41,40 @@ func (cw *CodeWriter) write(s string, isToken bool) {
 		}
 		return
 	}
+	if isToken {
+		cw.restoreSemi(s[0])
+	}
 	cw.separateSigns(s[0])
 	if isToken {
 		cw.commitMapping()
 	}
 	cw.Builder.WriteString(s)
 	cw.lastByte = s[len(s)-1]
-	cw.semiOmitted = false
+	if isToken {
+		cw.semiOmitted = false
+	}
 	if cw.Mapper == nil {
 		return
 	}
 	cw.Mapper.AdvanceString(s)
+}
+
+// restoreSemi writes the semicolon that WriteSemi left out when the token about
+// to be written would otherwise continue the previous statement: for a
+// JavaScript parser a line that starts with ( [ + - or ` goes on with the
+// expression before it (`a` and `(b)` on two lines is the call a(b)).
+func (cw *CodeWriter) restoreSemi(next byte) {
+	if !cw.semiOmitted {
+		return
+	}
+	switch next {
+	case '(', '[', '+', '-', '`':
+		cw.Builder.WriteByte(';')
+		cw.lastByte = ';'
+		if cw.Mapper != nil {
+			cw.Mapper.AdvanceColumn(1)
+		}
+	}
 }
 
 // separateSigns keeps two adjacent tokens from fusing into another token:
@@ -77,6 +100,7 @@ func (cw *CodeWriter) WriteString(s string) {
 // WriteRune writes a rune to the buffer
 func (cw *CodeWriter) WriteRune(r rune) {
 	cw.flushPending()
+	cw.restoreSemi(byte(r))
 	cw.separateSigns(byte(r))
 	cw.commitMapping()
 	cw.Builder.WriteRune(r)
